@@ -61,7 +61,9 @@ def correspondence_full(ctx: Ctx, runs: List[Dict[str, Any]], drv: bool, name: s
     for r, o in zip(runs, outs):
         im = r["impl"]
         bad = None
-        if ("err" in im) or ("err" in o):
+        if "results" not in o and "err" not in o:
+            bad = {"driver": json.dumps(o)[:300]}      # the model could not even read the request: a broken correspondence, not a harness crash
+        elif ("err" in im) or ("err" in o):
             if _err_class(im.get("err")) != _err_class(o.get("err")):
                 bad = {"impl": im.get("err", "results"), "model": o.get("err", "results")}
         else:
@@ -107,6 +109,11 @@ def correspondence(ctx: Ctx, runs: List[Dict[str, Any]], drv: bool, name: str = 
         r = runs[i]
         r["model"] = o
         im = r["impl"]
+        if "results" not in o and "err" not in o:
+            n_diff += 1
+            if n_diff <= 5:
+                ctx.broke("correspondence", name, json.dumps({"driver": json.dumps(o)[:300], "spec": r["spec"], "cer": r["cer"], "soll": r["soll"]})[:3000])
+            continue
         if ("err" in im) or ("err" in o):
             if im.get("err") != o.get("err"):
                 n_diff += 1
